@@ -1408,6 +1408,7 @@ func (c *connection) Join(conn net.Conn, id string, dial gen.NetworkDial, tail [
 		fl:         lib.NewFlusher(conn),
 	}
 	c.pool = append(c.pool, pi)
+	lib.VerifPoint("pool.join", c.peer)
 	c.pool_mutex.Unlock()
 
 	c.wg.Add(1)
